@@ -38,3 +38,16 @@ func (e *Engine) markLemmaUsed(l *Lemma) {
 	}
 	e.usedLemmas[l] = true
 }
+
+// pow2Term returns pow2(n) for an Int term n; pow2 is an uninterpreted function
+// with the recursive characterisation asserted once per VC.
+func (vc *VC) pow2Term(n Term) Term {
+	if !vc.uf["pow2"] {
+		vc.uf["pow2"] = true
+		vc.emit("(declare-fun pow2 (Int) Int)")
+		vc.emit("(assert (= (pow2 0) 1))")
+		vc.emit("(assert (forall ((q_e Int)) (! (=> (> q_e 0) (= (pow2 q_e) (* 2 (pow2 (- q_e 1))))) :pattern ((pow2 q_e)))))")
+		vc.emit("(assert (forall ((q_e Int)) (! (=> (>= q_e 0) (> (pow2 q_e) 0)) :pattern ((pow2 q_e)))))")
+	}
+	return app(SInt, "pow2", n)
+}
